@@ -143,10 +143,10 @@ func init() {
 		return ret(&TimeV{Sec: e.nowSec()})
 	}
 	stubs["(time.Time).Unix"] = func(e *Exec, th *Thread, c *CallCtx, a []Val) StubRes {
-		return ret(tInt2BV(a[0].(*TimeV).Sec, 64))
+		return ret(a[0].(*TimeV).Sec)
 	}
 	stubs["(time.Time).UnixNano"] = func(e *Exec, th *Thread, c *CallCtx, a []Val) StubRes {
-		return ret(tInt2BV(tIntBin("*", a[0].(*TimeV).Sec, mkInt(1000000000)), 64))
+		return ret(tBVBin("bvmul", a[0].(*TimeV).Sec, mkBV(64, 1000000000)))
 	}
 	stubs["time.Sleep"] = func(e *Exec, th *Thread, c *CallCtx, a []Val) StubRes { return ret(nil) }
 	stubs["time.AfterFunc"] = func(e *Exec, th *Thread, c *CallCtx, a []Val) StubRes {
@@ -189,15 +189,15 @@ func (e *Exec) nowSec() *Term {
 	if e.frozenNow != nil {
 		return e.frozenNow
 	}
-	n := e.fresh("now", SInt)
-	lo := mkInt(1577836800)
+	n := e.fresh("now", SBV(64))
+	lo := mkBV(64, 1577836800)
 	if e.lastNow != nil {
 		lo = e.lastNow
 	}
-	e.assume(tIntCmp(">=", n, lo))
-	e.assume(tIntCmp("<", n, mkInt(4102444800)))
+	e.assume(tBVCmp("bvuge", n, lo))
+	e.assume(tBVCmp("bvult", n, mkBV(64, 4102444800)))
 	e.lastNow = n
-	e.inputs = append(e.inputs, inputRec{Name: n.Name, T: n, Kind: "int"})
+	e.inputs = append(e.inputs, inputRec{Name: n.Name, T: n, Kind: "u64"})
 	return n
 }
 
